@@ -217,6 +217,7 @@ _hist_op = st.one_of(
     st.tuples(st.just("compute"), st.integers(0, 3), st.integers(0, 63), st.integers(0, 63)),
     st.tuples(st.just("compute"), st.integers(0, 3), st.integers(0, 63), st.integers(0, 63)),
     st.tuples(st.just("compute-same"), st.integers(0, 3)),
+    st.tuples(st.just("compute-bad"), st.integers(0, 3), st.integers(0, 63), st.integers(1, 40)),
     st.tuples(st.just("incremental"), st.integers(0, 3)),
 )
 history_st = st.tuples(st.binary(min_size=1, max_size=40), st.lists(_hist_op, min_size=2, max_size=14)).map(lambda t: [("new", t[0], True), ("compute", 0, 0, len(t[0]))] + list(t[1]))
@@ -261,6 +262,15 @@ def history_oracle(ops) -> Info:
                 fail(f"step {step}: compute_checksum({type(b).__name__} {bytes(b).hex()}, {start}, {length}) = {got:#06x}, reference {want:#06x}; history {ops[: step + 1]!r}", sig="history-window")
             if i in dirty:
                 mutated_then_computed = True
+        elif kind == "compute-bad":
+            # a window that runs past the end of the buffer: whatever this call does (raise, most likely), it must not
+            # poison the calls that follow
+            start = op[2] % (len(b) + 1)
+            try:
+                FCS.compute_checksum(b, start, len(b) - start + op[3])
+            except Exception:  # noqa: BLE001
+                pass
+            mutated_then_computed = mutated_then_computed or False
         elif kind == "incremental":
             obj = FCS()
             for o in b:
@@ -268,6 +278,57 @@ def history_oracle(ops) -> Info:
             if obj.checksum != fcs16(bytes(b)):
                 fail(f"step {step}: incremental checksum of {bytes(b).hex()} = {obj.checksum:#06x}, reference {fcs16(bytes(b)):#06x}", sig="history-incremental")
     return Info(nontrivial=mutated_then_computed, classes=("mutated-buffer-recomputed" if mutated_then_computed else "no-mutation",))
+
+
+# --- windows longer than 64 KiB whose running register is exactly 0 at power-of-two block boundaries ---------------------------------
+
+
+def zero_boundary_oracle(case) -> Info:
+    """case = (block size B, blocks k, seed): data where the FCS register is 0x0000 after every B octets (forced with a two-octet
+    tail per block, found by search), then a tail. compute_checksum over the whole string must match the reference."""
+    import random
+
+    B, k, seed, start = case
+    rnd = random.Random(seed)
+    tab = prefix_table()  # (b0,b1) for register from 0xFFFF; for other start registers search the pair directly
+    data = bytearray(rnd.randbytes(start))  # octets before the window
+    reg = 0xFFFF
+    for _ in range(k):
+        body = rnd.randbytes(B - 2)
+        for o in body:
+            reg = fcs_step(reg, o)
+        # find the pair that drives the register to 0: the two-octet map is a bijection for any start register
+        found = None
+        for b0 in range(256):
+            r0 = fcs_step(reg, b0)
+            # second octet solves fcs_step(r0, b1) == 0 for at most one b1
+            for b1 in range(256):
+                if fcs_step(r0, b1) == 0:
+                    found = (b0, b1)
+                    break
+            if found:
+                break
+        assert found, "no forcing pair"
+        data += body + bytes(found)
+        reg = 0
+    tail = rnd.randbytes(rnd.randrange(1, 50))
+    data += tail
+    for o in tail:
+        reg = fcs_step(reg, o)
+    want = reg ^ 0xFFFF
+    for buf in (bytes(data), bytearray(data)):
+        got = guarded(FCS.compute_checksum, buf, start, len(data) - start, what="compute_checksum")
+        if got != want:
+            fail(f"compute_checksum over a {len(data) - start}-octet window whose register is 0x0000 after every {B} octets = {got:#06x}, reference {want:#06x} (seed {seed}, start {start})", sig="zero-boundary")
+    obj = FCS()
+    for o in data[start:]:
+        obj.update(o)
+    if obj.checksum != want:
+        fail(f"incremental checksum over the same {len(data) - start} octets = {obj.checksum:#06x}, reference {want:#06x}", sig="zero-boundary-incremental")
+    return Info(nontrivial=True, classes=(f"block:{B}",), sample={"block": B, "blocks": k, "window": len(data) - start})
+
+
+ZERO_CASES = [(B, k, seed, start) for B in (256, 1024, 4096, 32768, 65536) for k, seed, start in ((1, 1, 0), (2, 2, 3), (1, 3, 1))] + [(65536, 3, 9, 0), (16384, 4, 5, 0), (8192, 8, 6, 7)]
 
 
 def build() -> Check:
@@ -282,7 +343,9 @@ def build() -> Check:
             "x start/length windows and trailer variants; non-trivial = window length >= 3 and not the whole string / message >= 3 octets; "
             "distinct by case hash. call-histories: operation lists over up to 4 buffers (bytes or bytearray; mutate in place, append, "
             "compute a window, recompute the same window, incremental) - every result must match the reference for the content at call "
-            "time; non-trivial = a window computed after the buffer was mutated."
+            "time (including calls with an out-of-range window in between, whose own outcome is not judged); non-trivial = a window computed "
+            "after the buffer was mutated. zero-register-boundaries: windows of 256 B .. 192 KiB constructed so that the running register "
+            "is exactly 0x0000 after every 2^k octets (k = 8..16)."
         ),
         assumptions=[
             "The reference is the bit-serial RFC 1662 algorithm in vlib/ref_fcs.py (no table).",
@@ -296,6 +359,7 @@ def build() -> Check:
             EnumClause("uniq", size=lambda t: 48 if t == "quick" else 1024, case_at=lambda i, t: (_uniq_registers(t)[i], 0, 0), oracle=good_oracle, batch=uniq_batch, doc="all trailers for seeded registers", exhaustive=False),
             HypClause("windows", _windows, window_oracle, quick=20000, thorough=1000000),
             HypClause("isgood", _isgood, isgood_oracle, quick=20000, thorough=1000000),
+            EnumClause("zero-register-boundaries", size=lambda t: len(ZERO_CASES), case_at=lambda i, t: ZERO_CASES[i], oracle=zero_boundary_oracle, doc="windows up to 192 KiB whose register is 0x0000 after every 2^k octets", exhaustive=False),
             HypClause("call-histories", history_st, lambda ops: history_oracle([tuple(o) for o in ops]), quick=10000, thorough=300000, doc="interleaved calls on bytes / in-place mutated bytearray buffers: no state may leak between calls"),
         ],
     )
